@@ -55,9 +55,10 @@ def radon_torch(images, theta=None, device=None):
 
     radon_images = torch.zeros((B, N_angles, N), dtype=images.dtype, device=device)
 
+    # the sampling grid must have the dtype of the images (grid_sample rejects a mismatch)
     grid_y, grid_x = torch.meshgrid(
-        torch.arange(N, dtype=torch.float32, device=device),
-        torch.arange(N, dtype=torch.float32, device=device),
+        torch.arange(N, dtype=images.dtype, device=device),
+        torch.arange(N, dtype=images.dtype, device=device),
         indexing="ij",
     )
     coords = torch.stack((grid_x - center, grid_y - center), dim=-1)  # (N, N, 2)
@@ -71,7 +72,7 @@ def radon_torch(images, theta=None, device=None):
                 [-torch.sin(angle_rad), torch.cos(angle_rad)],
             ],
             device=device,
-            dtype=torch.float32,
+            dtype=images.dtype,
         )
 
         rot = rot.unsqueeze(0).expand(B, -1, -1)  # [B, 2, 2]
